@@ -294,6 +294,8 @@ class Fam:
         if k == "Union":
             n = r.randrange(2, 4)
             parts = [self.gen_type(depth - 1, avail) for _ in range(n)]
+            # a NewType member makes to_dict itself reject the value (C11 territory): not used inside unions
+            parts = [p if p.src != "NTy" else LEAF_BY_SRC["int"] for p in parts]
             if r.random() < 0.3:
                 parts.insert(r.randrange(0, n + 1), T("None", _choice(["None"])))
             vs = [p for p in parts if p.val]
@@ -359,6 +361,8 @@ class Fam:
     def gen_class(self, name: str, avail: list[str], later: list[str]):
         r = self.r
         info: dict = {"fields": [], "refs": set(), "selfref": False}
+        # effective keys of one class must be pairwise distinct (aliases never equal a field name; inherited aliases count)
+        info["aliases"] = set()
         kind = r.choice(["plain", "plain", "dict", "json", "orjson"])
         bases = {"plain": "", "dict": "DataClassDictMixin", "json": "DataClassJSONMixin", "orjson": "DataClassORJSONMixin"}[kind]
         parent = None
@@ -367,6 +371,7 @@ class Fam:
                      and not self.classes[c].get("frozen") and not self.classes[c].get("kw_only")]
             if cands:
                 parent = r.choice(cands)
+                info["aliases"] = set(self.classes[parent]["aliases"])
         generic = parent is None and r.random() < 0.12
         frozen = parent is None and not generic and r.random() < 0.3
         slots_true = parent is None and r.random() < 0.1
@@ -435,7 +440,7 @@ class Fam:
             fo = r.random()
             alias = None
             if fo < 0.2:
-                alias = r.choice(["al_" + fname, "$ref", "$defs", "it's", "type", "a b", "\\u00e9", fname.upper()])
+                alias = r.choice(["al_" + fname, "$ref", "$defs", "it's", "Type", "a b", "\\u00e9", fname.upper()])
                 if alias in info.setdefault("aliases", set()):
                     alias = "al_" + fname
                 info["aliases"].add(alias)
